@@ -66,7 +66,7 @@ func cmdCheck(args []string) int {
 	fs.StringVar(&o.verif, "verif", "/verif", "verification directory")
 	fs.IntVar(&o.seed, "seed", envInt("VERIF_SEED", 0), "solver seed")
 	fs.IntVar(&o.timeout, "timeout", 0, "per-obligation timeout (s)")
-	fs.IntVar(&o.workers, "workers", runtime.NumCPU(), "parallel solver processes")
+	fs.IntVar(&o.workers, "workers", defaultWorkers(), "parallel obligations (each may run two solver processes)")
 	fs.StringVar(&o.funcs, "func", "", "only functions whose name contains this")
 	fs.StringVar(&o.dump, "dump", "", "write the SMT text of obligations whose name contains this to the work dir and keep it")
 	fs.StringVar(&o.solver, "solver", "", "use only this solver")
@@ -80,9 +80,9 @@ func cmdCheck(args []string) int {
 		o.tier = "quick"
 	}
 	if o.timeout == 0 {
-		o.timeout = 10
+		o.timeout = 30
 		if o.tier == "thorough" {
-			o.timeout = 60
+			o.timeout = 120
 		}
 	}
 	if o.property == "" {
@@ -265,4 +265,12 @@ func runMutants(o *checkOpts) (killed, total int, survivors []string) {
 	}
 	sort.Strings(survivors)
 	return
+}
+
+func defaultWorkers() int {
+	n := runtime.NumCPU() * 3 / 4
+	if n < 2 {
+		n = 2
+	}
+	return n
 }
